@@ -591,6 +591,17 @@ static iwrc _jbl_node_as_json(struct jbl_node *node, jbl_json_printer pt, void *
   return rc;
 }
 
+// copy of n bytes plus a terminating zero: member names and string values may hold zero bytes (strndup would stop there
+// and leave klidx / vsize larger than the buffer)
+static char* _jbl_clone_bytes(const char *p, size_t n, struct iwpool *pool) {
+  char *r = pool ? iwpool_alloc(n + 1, pool) : malloc(n + 1);
+  if (r) {
+    memcpy(r, p, n);
+    r[n] = '\0';
+  }
+  return r;
+}
+
 static struct jbl_node* _jbl_clone_node_struct(struct jbl_node *src, struct iwpool *pool) {
   struct jbl_node *n = pool ? iwpool_calloc(sizeof(*n), pool) : calloc(1, sizeof(*n));
   if (!n) {
@@ -603,14 +614,14 @@ static struct jbl_node* _jbl_clone_node_struct(struct jbl_node *src, struct iwpo
   n->flags = src->flags;
 
   if (src->key) {
-    n->key = pool ? iwpool_strndup2(pool, src->key, src->klidx) : strndup(src->key, src->klidx);
+    n->key = _jbl_clone_bytes(src->key, src->klidx > 0 ? (size_t) src->klidx : 0, pool);
     if (!n->key) {
       return 0;
     }
   }
   switch (src->type) {
     case JBV_STR: {
-      n->vptr = pool ? iwpool_strndup2(pool, src->vptr, src->vsize) : strndup(src->vptr, src->vsize);
+      n->vptr = _jbl_clone_bytes(src->vptr, src->vsize > 0 ? (size_t) src->vsize : 0, pool);
       if (!n->vptr) {
         return 0;
       }
